@@ -82,18 +82,20 @@ class Kernel:
         self.sig = Signals(self)
 
     # ------------------------------------------------------------- fd table
-    def _alloc(self, obj):
-        # lowest free descriptor, like the kernel
-        fd = FD_BASE
-        while fd in self.fds:
-            fd += 1
+    def _alloc(self, obj, fd=None):
+        # lowest free descriptor, like the kernel (from FD_BASE up, so that a simulated descriptor can never be
+        # mistaken for a real one of this process); fd=0: the stream is "standard input"
+        if fd is None:
+            fd = FD_BASE
+            while fd in self.fds:
+                fd += 1
         self.fds[fd] = obj
         self.opened += 1
         return fd
 
-    def open_tty(self, attrs=None, flags=None):
+    def open_tty(self, attrs=None, flags=None, fd=None):
         t = Tty(attrs, flags)
-        return self._alloc(t), t
+        return self._alloc(t, fd), t
 
     def _get(self, fd):
         if not isinstance(fd, int) or isinstance(fd, bool):
@@ -443,8 +445,13 @@ class Signals:
 
     # delivery ---------------------------------------------------------------
     def post(self, signum):
-        """environment: a signal is sent to the process"""
-        self.pending.append(int(signum))
+        """environment: a signal is sent to the process.  Standard signals do not queue: while one of a number
+        is pending, further ones of that number are merged into it."""
+        signum = int(signum)
+        if signum in self.pending:
+            self.w.probe("signal_coalesced")
+            return
+        self.pending.append(signum)
 
     def _returns_normally(self, signum):
         h = self.handlers.get(signum, _signal.SIG_DFL)
@@ -465,7 +472,9 @@ class Signals:
         # a handler that raises (KeyboardInterrupt) runs only where the thread is actually blocked in
         # select / read -- "SIGINT at an arbitrary moment of a blocked request"; a call that does not
         # block (a poll, a non-blocking read in the paste loop) is not such a moment
-        if self.pending and self.app_is_main:
+        if self.pending and self.app_is_main and not self.in_handler:
+            # (signals that arrive while a Python-level handler runs wait until it has returned: nesting is
+            # possible in CPython, but a simulated flood whose events are all "due" would nest without bound)
             self.deliver_pending(allow_raising=blocking and name in RAISING_SEAMS)
 
     def deliver_pending(self, allow_raising):
